@@ -406,8 +406,8 @@ func effects(c *mon.Case, g *gen.ExprGen, r *rand.Rand) {
 
 func main() {
 	mon.Main(mon.Spec{
-		Prop: "C28",
-		Rule: "case = random expression tree and effect list; Equal on (e, deep clone), (e, copy with exactly one node attribute changed: width/op/key/byte/operand order/kind) and random pairs, in both argument orders; FindAll for each of the 5 kinds; ReplaceAll for each kind with replacement functions matching no/some/all nodes, callback order and arguments recorded; Exprs/ExprsMany/EffectsApply; non-trivial = one-attribute mutation pair or a substitution matching a proper subset (>=2 callbacks)",
+		Prop:        "C28",
+		Rule:        "case = random expression tree and effect list; Equal on (e, deep clone), (e, copy with exactly one node attribute changed: width/op/key/byte/operand order/kind) and random pairs, in both argument orders; FindAll for each of the 5 kinds; ReplaceAll for each kind with replacement functions matching no/some/all nodes, callback order and arguments recorded; Exprs/ExprsMany/EffectsApply; non-trivial = one-attribute mutation pair or a substitution matching a proper subset (>=2 callbacks)",
 		Explanation: "oracle: refir structural equality, pre-order traversal and a reference bottom-up substitution; effect helpers must list [addr,value] / [value] and rebuild the same kind, key and width with transformed operands",
 		Assumptions: []string{"refir structural tools"},
 		Cases: func(t string) int {
